@@ -127,9 +127,11 @@ prop("C17", ["prims.go", "c17.go"],
 # ------------------------------------------------------------------------------------------------ C19
 prop("C19", ["prims.go", "c17.go"],
      [run("sequences", "harnessC19", ["sequence-done"],
-          quick={"bound": "call sequences of length 3 over {Start, Protocol, ReattachConfig, Kill-then-Start}; first stdout line garbage or valid; RunnerFunc counting launches"})],
+          quick={"bound": "call sequences of length 3 over {Start, Protocol, ReattachConfig, Kill-then-Start}; first stdout line garbage or valid; RunnerFunc counting launches"}),
+      run("concurrent", "harnessC19concurrent", ["two-starts", "two-clients", "done"], dpor=True, files=WORLD,
+          quick={"max_reversals": 1, "race": True, "bound": "host x plugin composed (net/rpc and gRPC): two goroutines on one Client, each performing one of {Start, Client, Protocol+Exited+ID+ReattachConfig, Kill}; all schedules with <= 1 reversal, happens-before race detection; then Kill and another Start"})],
      [PROC, BUFIO, CTX, STR], ["as C01"],
-     "concurrent mixes (covered by C20's schedules only for Kill/Stop); sequences longer than the bound; exec.Cmd launch (a second StdoutPipe/Start on one exec.Cmd fails by the os/exec contract)",
+     "more than two goroutines or more than one operation each in the concurrent run; sequences longer than the bound",
      text="Bounded symbolic model checking of the real Start/Client/Protocol/ReattachConfig/Kill over every call sequence within the length bound, with the outcome of the first start symbolic: launches (runner creations and starts) <= 1, no launch after Kill.",
      note="Bound: sequences of length 3, custom runner. " + ENGINE)
 
@@ -269,6 +271,8 @@ prop("C20", ["prims.go", "c20.go"],
      [run("stop-stop", "harnessC20stop", ["both-stopped"], dpor=True, quick={"max_reversals": 2, "race": True, "bound": "two goroutines calling GRPCServer.Stop"}),
       run("close-close", "harnessC20close", ["both-closed"], dpor=True, quick={"max_reversals": 2, "race": True, "bound": "two goroutines calling GRPCBroker.Close (sync.Once control)"}),
       run("nextid", "harnessC20nextid", ["ids-distinct"], dpor=True, quick={"max_reversals": 2, "race": True, "bound": "two goroutines each taking two IDs from both broker kinds, counter value symbolic (wrap-around included)"}),
+      run("client-methods", "harnessC19concurrent", ["two-starts", "two-clients", "done"], dpor=True, files=WORLD,
+          quick={"max_reversals": 1, "race": True, "bound": "host x plugin composed (net/rpc and gRPC): two goroutines on one Client, each performing one of {Start, Client, Protocol+Exited+ID+ReattachConfig, Kill}; all schedules with <= 1 reversal; happens-before race detection over everything go-plugin touches on both sides"}),
       run("accept-close", "harnessC20brokerClose", ["host-side", "plugin-side", "both-returned"], dpor=True, files=["prims.go", "c07.go"],
           quick={"max_reversals": 3, "race": True, "bound": "a GRPCBroker.Accept (sending through the real stream pump) racing with Close of the same broker, host side and plugin side, all schedules with <= 3 reversals"},
           thorough={"max_reversals": 4, "race": True, "max_wall_s": 1500, "bound": "as quick with <= 4 reversals"})],
